@@ -28,3 +28,35 @@ def unique_vs_full(inp):
             if err > 1e-6:
                 bad.append({'method': m, 'spectrum': spectrum, 'max_difference': err})
     return {'violates': bool(bad), 'detail': bad[:4]}
+
+
+def mean_field_two_baths(inp):
+    """mean-field TEMPO with two species whose baths couple through operators with the same number of degeneracy classes
+    arranged differently: unique=True must reproduce unique=False"""
+    import oqupy
+    from oqupy import operators as ops
+    corr = oqupy.PowerLawSD(alpha=0.2, zeta=1.0, cutoff=4.0, cutoff_type='gaussian', temperature=0.1)
+    I2 = np.identity(2)
+    baths = [oqupy.Bath(np.kron(0.5 * ops.sigma('z'), I2), corr), oqupy.Bath(np.kron(I2, 0.5 * ops.sigma('z')), corr)]
+    sx_a, sx_b = np.kron(ops.sigma('x'), I2), np.kron(I2, ops.sigma('x'))
+    sz_a, sz_b = np.kron(ops.sigma('z'), I2), np.kron(I2, ops.sigma('z'))
+    sm = np.kron(ops.sigma('-'), I2) + np.kron(I2, ops.sigma('-'))
+    h0 = 0.5 * sz_a + 0.3 * sz_b + 0.2 * sx_a @ sx_b
+    g = (0.4, 0.7)
+    mfs = oqupy.MeanFieldSystem([oqupy.TimeDependentSystemWithField(lambda t, a, gi=gi: h0 + gi * np.real(a) * (sx_a + sx_b)) for gi in g],
+                                lambda t, states, a: -(0.2j + 0.1) * a - 0.5j * sum(gi * np.matmul(sm, s).trace() for gi, s in zip(g, states)))
+    init = [np.kron(ops.spin_dm('x+'), ops.spin_dm('y+')), np.kron(ops.spin_dm('y+'), ops.spin_dm('x+'))]
+    par = oqupy.TempoParameters(dt=0.1, dkmax=4, epsrel=1e-7)
+
+    def run(unique):
+        t = oqupy.MeanFieldTempo(mean_field_system=mfs, bath_list=baths, initial_state_list=init, initial_field=1.0 + 0.5j, start_time=0.0,
+                                 parameters=par, unique=unique)
+        d = t.compute(end_time=0.5, progress_type='silent')
+        return [np.array(x.states) for x in d.system_dynamics], np.array(d.field_expectations()[1])
+    ref_s, ref_f = run(False)
+    try:
+        s, f = run(True)
+    except Exception as e:      # noqa
+        return {'violates': True, 'detail': 'unique=True raised %s: %s' % (type(e).__name__, str(e)[:100])}
+    dev = [float(np.abs(a - b).max()) for a, b in zip(ref_s, s)] + [float(np.abs(ref_f - f).max())]
+    return {'violates': max(dev) > 1e-5, 'max deviation unique=True vs unique=False (species 1, species 2, field)': dev}
